@@ -82,7 +82,8 @@ impl HKb {
     pub fn of(&self, k: u64) -> (u64, u64) {
         match self.0 {
             KeyMode::Transparent | KeyMode::Typed { .. } => (k, 0),
-            KeyMode::Collide { m } => (k % m, mix(k) | 1),
+            // m == 0: no folding at all - every key keeps its own index but carries a non-zero conflict hash
+            KeyMode::Collide { m } => (if m == 0 { k } else { k % m }, mix(k) | 1),
         }
     }
 }
